@@ -60,7 +60,7 @@ func init() {
 	core.Register(&core.Check{
 		ID:          "C20",
 		Level:       "exploration",
-		Rule:        "(seal) texts of 20 classes (empty, ASCII, multi-byte, newlines, YAML-special, NUL, invalid UTF-8, up to 4 KiB) x 4 fresh key pairs (1024 and 2048 bit) + the embedded public key: round trip, then for each sealed value every single byte position of the raw envelope x {+1, ^0x80, 0x00, 0xFF} (sampled to 400 positions for long values), every truncation length (sampled), single-character substitutions and deletions in the base64 text, appended bytes, swapped halves, a sealed value of another text under the same key, the right text under another key; QuestionModel.Seal/Unseal of a text question whose answer is each text with leading/trailing blanks, newlines, tabs, NBSP and ideographic space. (verify) exhaustive grid: n = 2..5 choices x every assignment of outputs {matches, differs, differs by a trailing space} (+ questions whose choices differ only in final line breaks, every marking) x every subset of marked letters incl. a letter beyond n and malformed markings x {single-choice, multiple-choice}, choices as inline code, text blocks and evy code blocks that are really executed; plus exercises whose text and image questions share program texts (print and draw), verified in random order in one process. distinct = distinct (text class, key, tampering) / question cells",
+		Rule:        "(seal) texts of 20 classes (empty, ASCII, multi-byte, newlines, YAML-special, NUL, invalid UTF-8, up to 4 KiB) x 4 fresh key pairs (1024, 1028, 2048 and 1100+ bits) + the embedded public key: round trip, then for each sealed value every single byte position of the raw envelope x {+1, ^0x80, 0x00, 0xFF} (sampled to 400 positions for long values), every truncation length (sampled), single-character substitutions and deletions in the base64 text, appended bytes, swapped halves, a sealed value of another text under the same key, the right text under another key; QuestionModel.Seal/Unseal of a text question whose answer is each text with leading/trailing blanks, newlines, tabs, NBSP and ideographic space. (verify) exhaustive grid: n = 2..5 choices x every assignment of outputs {matches, differs, differs by a trailing space} (+ questions whose choices differ only in final line breaks, every marking) x every subset of marked letters incl. a letter beyond n and malformed markings x {single-choice, multiple-choice}, choices as inline code, text blocks and evy code blocks that are really executed; plus exercises whose text and image questions share program texts (print and draw), verified in random order in one process. distinct = distinct (text class, key, tampering) / question cells",
 		Assumptions: []string{"closed-form oracle: a tampered or foreign-key value may be rejected or still yield the original, never another text; Verify accepts iff the marking is well formed and {marked} == {choices whose output equals the question's output}"},
 		NumCases: func(tier string) int {
 			seal := len(c20Texts) * 5
@@ -73,7 +73,8 @@ func init() {
 		Exhaustive: func(tier string) bool { return true },
 		Setup: func(c *core.Ctx) error {
 			st := &c20State{}
-			for _, bits := range []int{1024, 1024, 2048, 2048} {
+			// also key sizes that are not a multiple of 8 bits (and one in the first slot of each run: 1024 + 8k + r)
+			for _, bits := range []int{1024, 1028, 2048, 1100 + int(c.Seed%7)} {
 				kp, err := learn.Keygen(bits)
 				if err != nil {
 					return err
@@ -98,11 +99,67 @@ func c20Run(c *core.Ctx, i int) {
 	if blocks := (c20VerifyCells() + c20VerifyBlock - 1) / c20VerifyBlock; i-nSeal >= blocks {
 		if i-nSeal-blocks == 0 {
 			c20Newlines(c)
+			c20TextAnswers(c)
 		}
 		c20Mixed(c, i-nSeal-blocks)
 		return
 	}
 	c20Verify(c, (i-nSeal)*c20VerifyBlock)
+}
+
+// c20TextAnswers: a text question is verified exactly when the answer program prints the question's output.
+func c20TextAnswers(c *core.Ctx) {
+	lines := [][]string{{"a", "b"}, {"1, 2,", "Robots say moo.", "🤖🐄"}, {"x"}}
+	for qi, ls := range lines {
+		md := "## Understanding sequence\n\nComplete the program that generates this output:\n\n```\n" + strings.Join(ls, "\n") + "\n```\n\nProgram:\n\n```evy\n\nprint \"" + ls[len(ls)-1] + "\"\n```\n"
+		prog := func(out []string) string {
+			var b strings.Builder
+			for _, l := range out {
+				b.WriteString("  print \"" + l + "\"\n")
+			}
+			return b.String()
+		}
+		cases := []struct {
+			what string
+			out  []string
+			ok   bool
+		}{
+			{"exact", ls, true}, {"shorter", ls[:len(ls)-1], len(ls) == 0}, {"one more line", append(append([]string{}, ls...), "extra"), false}, {"two more lines", append(append([]string{}, ls...), "extra", ls[0]), false},
+			{"last line different", append(append([]string{}, ls[:len(ls)-1]...), ls[len(ls)-1]+"2"), false}, {"first line different", append([]string{"z" + ls[0]}, ls[1:]...), false},
+			{"line inserted before", append([]string{"extra"}, ls...), false}, {"twice", append(append([]string{}, ls...), ls...), false},
+		}
+		for _, tc := range cases {
+			if len(tc.out) == 0 {
+				continue
+			}
+			fm := "type: question\ndifficulty: easy\nanswer-type: text\nanswer: |\n" + prog(tc.out)
+			var verr error
+			func() {
+				defer func() {
+					if p := recover(); p != nil {
+						verr = fmt.Errorf("panic: %v", p)
+						c.Violation("verify:crash", fmt.Sprintf("text question %d (%s): %v", qi, tc.what, p), fm+"---\n"+md, nil)
+					}
+				}()
+				m, err := learn.NewQuestionModel("course/unit/exercise/q.md", learn.WithRawMD(fm, md))
+				if err != nil {
+					verr = err
+					return
+				}
+				verr = m.Verify()
+			}()
+			c.Event("questions_verified", 1)
+			c.Event("text_questions_verified", 1)
+			c.Distinct(fmt.Sprintf("text-question|%d|%s", qi, tc.what))
+			if (verr == nil) != tc.ok {
+				kind := "accepts-wrong-answer"
+				if tc.ok {
+					kind = "rejects-right-answer"
+				}
+				c.Violation("verify:text:"+kind, fmt.Sprintf("text question with output %q, answer program printing %q (%s): Verify accepted=%v (%v)", ls, tc.out, tc.what, verr == nil, verr), fm+"---\n"+md, nil)
+			}
+		}
+	}
 }
 
 // c20Newlines: outputs that differ only in their final line breaks are different outputs.
